@@ -507,13 +507,42 @@ RULE = {
 ASSUMPTIONS = {
     "all": ["sampling: a clean batch is evidence, not proof", "testing/synctest time semantics (go1.26.8)", "harness knowledge base and reference models are written from the property text",
             "consumer-supplied components (storage, session store, mail/SMS transports) behave as the documented interfaces demand"],
+    "C01": ["expiry middleware not installed (C09 covers it); password validity = independent bcrypt check of the stored hash; a third of the runs inject storage/hasher/renderer faults (a faulted request may only fail)"],
+    "C02": ["TOTP codes within +-1 period of now are accepted either way; the SMS outbox (number, code) is the ground truth for 'sent to its registered number'",
+            "scope: accounts that have a factor enabled, or whose login was pending (what a cookie-authenticated session may do is C07)"],
+    "C03": ["OAuth2 accounts are created confirmed by the simulated storer; an instant exactly equal to the lock expiry counts as unlocked; cookie re-authentication (half-auth) of a gated account is left to the middleware clause"],
     "C04": ["configuration domain: lock module loaded, oauth2/recover not loaded, login-after-recovery off (other login paths are covered by C01/C03)",
-            "a pause exactly equal to LockWindow, an instant exactly equal to the lock expiry, a TOTP code in the +-1 period skew band, a correct second factor while locked (C03's business) and wrong codes on SMS enrolment pages are accepted either way (the reference adopts the stored state)"],
+            "an instant exactly equal to the lock expiry, a TOTP code in the +-1 period skew band, a correct second factor while locked (C03's business) and wrong codes on SMS enrolment pages are accepted either way (the reference adopts the stored state)"],
+    "C05": ["token identity is compared on decoded bytes (URL-safe base64 with or without padding, CR/LF ignored); age exactly equal to the validity period is accepted either way; thorough tier sweeps all 512 single-bit flips in blocks of 64 per run"],
+    "C06": ["candidate set for 'verifies only the new password': old passwords, other accounts' passwords, prefix, extensions, empty; a change whose request was reported as failed is not an acknowledged change"],
+    "C07": ["positive direction (valid cookie must authenticate, mark half-auth, rotate) judged on probe requests; logout need not revoke server-side"],
+    "C08": ["the requirement x refusal x mount-pathed table is enumerated completely for every reached session state; paths/queries are sampled from a hostile alphabet; requirements unmet plus storage failure accepts refusal or 500, a session naming nobody must get the refusal"],
+    "C09": ["last_action has one-second resolution: gaps in (ExpireAfter-1s, ExpireAfter] are accepted either way (one instant with the whole-second clock); remember module not loaded (documented conflict)"],
+    "C10": ["flash_success / flash_error exempt (written by the logout redirect itself); whitelists hold application keys only"],
+    "C11": ["operation-sequence testing, no time/schedule; programs that never write are not judged; after an injected store write failure only at-most-once and ordering are required (documented panic)"],
+    "C12": ["'successful use' = session established, pending login parked or factor removed; a secret consumed without a successful use is rated 'maybe'; TOTP replay = two consecutive accepted submissions of the same code"],
+    "C13": ["disabling SMS 2FA: lenient reading (the code the session currently expects); KF2 (authorisation bound to the session, not the account) is a recorded known finding"],
+    "C14": ["a callback that matched the state but ended in an error leaves the state's status open ('maybe'); freshness of an authorisation code is the simulated provider's own record"],
+    "C15": ["string dimension bounded by the generator grammar; base URL https://site.example; classification follows WHATWG URL parsing (control characters stripped, backslash == slash for special schemes)"],
+    "C16": ["only the differing input string itself is redacted before the byte comparison; timing side channels out of scope"],
+    "C17": ["secrets shorter than 8 characters and digit codes are not scanned (chance substrings); TOTP secrets, SMS numbers and OAuth2 access tokens are not in the property's list; log lines are also scanned for the query-escaped form"],
+    "C18": ["(call index x error kind) is enumerated completely for each executed scenario under both error handlers; other configuration dimensions are sampled",
+            "exemptions: spurious not-found on recover start is answered like an unknown user (anti-enumeration by design); storage failures inside the remember middleware are logged and the request served unauthenticated (documented) unless a cookie is still handed out"],
+    "C19": ["lengths counted in bytes; passwords containing runes whose class the statement leaves open (Lt/Lm/Lo, Nl/No, marks, controls) are 'undecided'; the policy clause is checked only for well-formed identifiers with a matching confirmation"],
+    "C20": ["harness state shared by tasks (database, mail/SMS outboxes, IdP) keeps a mutex, which can mask a race for one interleaving; the seed search over interleavings removes the mask; race reports without an authboss frame would be exit 2 (none occur)",
+            "clients act on disjoint accounts; scripts never keep two mails outstanding (their arrival order would be a legitimate difference)"],
 }
 
 
 def extra_cov(prop, extra):
-    return {"extra_counters": extra} if extra else {}
+    out = {"extra_counters": extra} if extra else {}
+    if prop == "C18":
+        out["enumerated_subspace"] = "for every executed scenario and both error handlers: every faultable seam call index of the target request x every error kind meaningful at that call (complete); scenario x configuration pairs are sampled"
+    if prop == "C08":
+        out["enumerated_subspace"] = "for every reached session state: all 4 requirement sets x 3 refusal modes x 2 mount-pathed settings (complete); paths, queries and the injected storage outcome are sampled"
+    if prop == "C20":
+        out["distinct_measure"] = "distinct_nontrivial counts distinct interleavings: hashes of the scheduler's (task, seam) pick sequence"
+    return out
 
 
 def main():
